@@ -163,7 +163,9 @@ func ShareWithConfig[T any](config ShareConfig[T]) func(Observable[T]) Observabl
 				)
 
 				// Subscription between the source and the subject.
-				sourceSubscription.AddUnsubscribable(
+				// Use the subscription captured under the lock: the shared variable is reset (set to nil) by the
+				// proxy observer when the source terminates during its own subscription, and by other goroutines.
+				currentSourceSubscription.AddUnsubscribable(
 					source.SubscribeWithContext(subscriberCtx, proxy),
 				)
 			}
